@@ -13,7 +13,7 @@ def run(tier, seed):
               "find_local_clifford_layer.find_local_clifford_layer", "find_local_clifford_layer.local_clifford_layer_to_circuit",
               "f2_algebra.*", "rotate_stabilizer_into_state.rotate_stabilizer_into_state/_rotate_stabilizer_into_state_circuit/synth_circuit_from_stabilizers",
               "stabilizer.Stabilizer.to_list/expand/is_qubit_entangled")
-    ck.bounds += ["F3: n=2 every valid tableau x every sign vector, all bases; n=3: %s of the 64 partitions of the tableau space (all bases, all signs inside a partition)" % ("a seeded 10 of the 512" if tier == "quick" else "all 64"),
+    ck.bounds += ["F3: n=2 every valid tableau x every sign vector, all bases; n=3: %s partitions of the tableau space (all bases, all signs inside a partition)" % ("a seeded 10 of the 512" if tier == "quick" else "all 64 of 64"),
                   "Fc: n=4..6 per class graph: local-Clifford layer symbolic on a qubit window (n=4: %s qubits, n=5: %s, n=6: 1), seeded layer elsewhere, seeded basis change, sign vectors in a seeded affine family of 4" % (("2", "1") if tier == "quick" else ("3", "2")),
                   "classes: all for n<=4 (thorough: n<=5); otherwise one per entanglement structure + seeded ones (quick: 24 for n=5, 14 for n=6 per configuration; thorough: 150 for n=6)"]
     ck.bounds += ["Fc0: EVERY class of EVERY configuration once (table graph, seeded concrete local-Clifford layer - thorough: one symbolic qubit for n<=5 -, seeded basis change, 2 sign vectors)"]
